@@ -33,7 +33,8 @@ RULE = (
     "num_processes=1; storage = EmulsionTimeCourse.from_storage over 3..8 stored frames (incl. "
     "frames without droplets, optional refine and explicit least_squares_params) under the same "
     "schedules; repeat = every deterministic entry point (locate, refine, structure factor, length "
-    "scale, tracking, rendering) called twice on the same input. Non-trivial = pool case whose "
+    "scale, tracking, rendering) called twice on the same input and a third time after unrelated analyses with "
+    "other options (fit parameters, thresholds, modes) were run in between. Non-trivial = pool case whose "
     "observed completion order is not the submission order, or a repeat case with >=1 droplet. "
     "Distinct = digest of the case."
 )
@@ -161,7 +162,8 @@ def gen(rng, kind, tier):
     if kind == "repeat":
         dim = int(rng.choice([1, 2, 2, 3])) if False else int(rng.choice([2, 2, 3]))
         return {"field": _emulsion_field(rng, dim, int(rng.integers(1, 5)), float(rng.choice([0.0, 0.05]))),
-                "what": str(rng.choice(["locate", "locate-refine", "structure", "length", "tracking", "render"]))}
+                "what": str(rng.choice(["locate", "locate-refine", "locate-refine", "structure", "length", "tracking", "render"])),
+                "interfere_seed": int(rng.integers(1 << 30))}
     raise ValueError(kind)
 
 
@@ -293,6 +295,57 @@ def run_pool_case(case, rec, which):
     rec.count(f"workers_used:{len({e['pid'] for e in worker_events})}")
 
 
+def history_block(spec, rec):
+    """First thing in a fresh process: reference results before any non-default call, then all
+    interfering calls, then the same analyses again.  State that leaks from one call into later
+    ones pollutes a process for good, so it is only visible at this first transition."""
+    from .. import core
+
+    rng = core.sub_rng(spec["seed"], ID, "history", spec["name"])
+    cases = []
+    for i in range(6):
+        dim = int(rng.choice([2, 2, 3]))
+        cases.append({"field": _emulsion_field(rng, dim, int(rng.integers(1, 4)), 0.05),
+                      "what": ["locate-refine", "locate-refine", "length", "structure", "locate", "tracking"][i]})
+    fields = [make_field(c["field"]) for c in cases]
+    before = [common.monitored(rec, f"history:{c['what']}", _once, f, c["what"]) for c, f in zip(cases, fields)]
+    n = 0
+    for f in fields[:3]:
+        for k in range(4):
+            r = common.monitored(rec, "interfering-calls", interfere, f, 1000 + 7 * k)
+            n += int(r.result or 0) if r.ok else 0
+    rec.hit("interfering-calls-completed", n)
+    for c, f, b in zip(cases, fields, before):
+        with rec.case("history", {"field": c["field"], "what": c["what"], "kind": "history"}):
+            a = common.monitored(rec, f"history:{c['what']}", _once, f, c["what"])
+            if rec.check(a.ok and b.ok, "no-exception", f"{c['what']} raised {a.exc!r} / {b.exc!r}"):
+                rec.check(a.result == b.result, "repeatable",
+                          f"{c['what']} on the same input returned different bytes after unrelated analyses with other "
+                          f"options had been run in the same process; {c['field']['grid']}")
+            rec.evaluated(nontrivial=True)
+
+
+def _once(field, what):
+    import droplets
+
+    if what == "locate":
+        return snap(droplets.locate_droplets(field))
+    if what == "locate-refine":
+        return snap(droplets.locate_droplets(field, refine=True))
+    if what == "structure":
+        k, s = droplets.get_structure_factor(field)
+        return (np.asarray(k).tobytes(), np.asarray(s).tobytes())
+    if what == "length":
+        return tuple(float(droplets.get_length_scale(field, method=m)).hex()
+                     for m in ("structure_factor_mean", "structure_factor_maximum"))
+    if what == "tracking":
+        em = droplets.locate_droplets(field)
+        etc = droplets.EmulsionTimeCourse([em, em.copy(), em[:1]], times=[0.0, 1.0, 2.5])
+        return snap(droplets.DropletTrackList.from_emulsion_time_course(etc, method="distance"))
+    em = droplets.locate_droplets(field)
+    return np.asarray(em.get_phasefield(field.grid).data).tobytes()
+
+
 def run_repeat(case, rec):
     import droplets
     from droplets import image_analysis as ia
@@ -301,29 +354,55 @@ def run_repeat(case, rec):
     what = case["what"]
 
     def once():
-        if what == "locate":
-            return snap(droplets.locate_droplets(field))
-        if what == "locate-refine":
-            return snap(droplets.locate_droplets(field, refine=True))
-        if what == "structure":
-            k, s = droplets.get_structure_factor(field)
-            return (np.asarray(k).tobytes(), np.asarray(s).tobytes())
-        if what == "length":
-            return tuple(float(droplets.get_length_scale(field, method=m)).hex()
-                         for m in ("structure_factor_mean", "structure_factor_maximum"))
-        if what == "tracking":
-            em = droplets.locate_droplets(field)
-            etc = droplets.EmulsionTimeCourse([em, em.copy(), em[:1]], times=[0.0, 1.0, 2.5])
-            return snap(droplets.DropletTrackList.from_emulsion_time_course(etc, method="distance"))
-        em = droplets.locate_droplets(field)
-        return np.asarray(em.get_phasefield(field.grid).data).tobytes()
+        return _once(field, what)
 
     a = common.monitored(rec, f"repeat:{what}", once)
     b = common.monitored(rec, f"repeat:{what}", once)
     if rec.check(a.ok and b.ok, "no-exception", f"{what} raised {a.exc!r} / {b.exc!r}"):
         rec.check(a.result == b.result, "repeatable", f"two calls of {what} on the same input returned different bytes; {case['field']['grid']}")
+    # history independence: unrelated analyses with other options in between must not change the
+    # result of repeating the same analysis on the same input (no state may leak between calls)
+    inter = common.monitored(rec, "interfering-calls", interfere, field, case.get("interfere_seed", 0))
+    rec.hit("interfering-calls-completed", int(inter.result or 0) if inter.ok else 0)
+    c = common.monitored(rec, f"repeat:{what}", once)
+    if a.ok and rec.check(c.ok, "no-exception", f"{what} raised {c.exc!r} after unrelated calls"):
+        rec.check(a.result == c.result, "repeatable",
+                  f"{what} on the same input returned different bytes after unrelated analyses with other options had "
+                  f"been run in between; {case['field']['grid']}")
     rec.evaluated(nontrivial=len(case["field"]["droplets"]) >= 1)
     rec.count(f"repeat:{what}")
+
+
+def interfere(field, seed):
+    """Unrelated analyses with non-default options (their own outcome is not judged here)."""
+    import droplets
+    from droplets import image_analysis as ia
+
+    r = np.random.default_rng(seed)
+    other = field.copy()
+    other.data[...] = r.normal(0.5, 0.4, other.data.shape)
+    done = 0
+    calls = [
+        lambda: droplets.locate_droplets(field, threshold="otsu", minimal_radius=0.7, refine=True,
+                                         refine_args={"least_squares_params": {"max_nfev": 7, "method": "dogbox"},
+                                                      "tolerance": 1e-3, "vmin": None, "vmax": None}),
+        lambda: droplets.locate_droplets(other, threshold="mean", interface_width=0.4, refine=True,
+                                         refine_args={"adjust_values": True, "least_squares_params": {"xtol": 1e-2, "loss": "soft_l1"}}),
+        lambda: droplets.locate_droplets(field, threshold=0.3, modes=2 if field.grid.dim == 2 else 0, refine=True,
+                                         refine_args={"tolerance": 1e-2}),
+        lambda: droplets.get_structure_factor(other, smoothing=0.3, wave_numbers=[0.5, 1.0], add_zero=True),
+        lambda: droplets.get_length_scale(other, method="structure_factor_maximum", smoothing=0.2),
+        lambda: droplets.get_length_scale(field, method="droplet_detection", threshold="mean"),
+        lambda: ia.refine_droplet(other, droplets.DiffuseDroplet(np.full(field.grid.dim, 5.0), 2.0, 0.8),
+                                  least_squares_params={"ftol": 1e-1}),
+    ]
+    for k in r.permutation(len(calls))[: int(r.integers(2, len(calls) + 1))]:
+        try:
+            calls[int(k)]()
+            done += 1
+        except Exception:  # noqa: BLE001 - not the subject of this clause
+            pass
+    return done
 
 
 def run(case, rec):
@@ -341,13 +420,29 @@ def run_shard(spec, rec):
 
     rec.watch(ia.refine_droplets, emulsions.EmulsionTimeCourse.from_storage)
     with Injector():
+        if spec["kind"] == "repeat":
+            try:
+                history_block(spec, rec)
+            except Exception as e:  # noqa: BLE001
+                rec.harness_error("history_block", e)
         common.run_generated(spec, rec, gen, run, ID)
 
 
 def replay(v, rec):
     with Injector():
         with rec.case(v["kind"], v["case"]):
-            run(v["case"], rec)
+            if v["kind"] == "history":
+                # only meaningful in a fresh process: reference first, interference, then again
+                c = v["case"]
+                f = make_field(c["field"])
+                b = common.monitored(rec, f"history:{c['what']}", _once, f, c["what"])
+                for k in range(4):
+                    common.monitored(rec, "interfering-calls", interfere, f, 1000 + 7 * k)
+                a = common.monitored(rec, f"history:{c['what']}", _once, f, c["what"])
+                if rec.check(a.ok and b.ok, "no-exception", f"{c['what']} raised"):
+                    rec.check(a.result == b.result, "repeatable", f"{c['what']} differs after unrelated analyses")
+            else:
+                run(v["case"], rec)
 
 
 def post_merge(merged, inconclusive):
